@@ -156,7 +156,7 @@ func TestVerifC01(t *testing.T) {
 		return &streamv1.ElementValue{ElementId: "sentinel", Timestamp: timestamppb.New(base.Add(-48 * time.Hour)), TagFamilies: []*modelv1.TagFamilyForWrite{{Tags: sentinelTags()}}}
 	}))
 
-	nCases := verifh.Pick(24, 400)
+	nCases := verifh.Pick(32, 400)
 	var uid int64
 	for c := 0; c < nCases; c++ {
 		r := verifh.Rand("c01", c)
@@ -169,6 +169,12 @@ func TestVerifC01(t *testing.T) {
 		kind := "measure"
 		if c%2 == 1 {
 			kind = "stream"
+		}
+		// a directed layout instead of seeded rows: some series whose time range encloses the ranges of the others on
+		// both sides, all in one batch (the time range of a part / primary block is the union of its blocks' ranges)
+		enclosing := c%8 == 2 || c%8 == 7
+		if enclosing {
+			n = 0
 		}
 		model := map[int64]wrote{}
 		var pts []*measurev1.DataPointValue
@@ -217,8 +223,9 @@ func TestVerifC01(t *testing.T) {
 		}
 		// one more series in the same batch whose timestamps and integer columns are an arithmetic progression with
 		// one interior value nudged: still monotone, same first step, same total span, but not a constant step (the
-		// boundary between the constant-delta and the delta column encodings)
-		{
+		// boundary between the constant-delta and the delta column encodings). Only every other pair of cases carries
+		// these series: they lie after all seeded rows and would otherwise fix the time range of every part.
+		if (c/2)%2 == 0 && !enclosing {
 			k := 4 + r.Intn(6)
 			d := int64(1 + r.Intn(40))
 			offs := make([]int64, k)
@@ -288,6 +295,40 @@ func TestVerifC01(t *testing.T) {
 				}
 			}
 			s.Count("c01."+kind+".series_sharing_timestamps", 3)
+		}
+		if enclosing {
+			for si := 0; si < 8; si++ {
+				offs := []time.Duration{100 * time.Second, 120 * time.Second, 150 * time.Second, 200 * time.Second}
+				if si%2 == 1 { // wide: starts before and ends after every narrow series
+					offs = []time.Duration{time.Duration(50-si) * time.Second, 150 * time.Second, time.Duration(300+si) * time.Second}
+				}
+				for _, off := range offs {
+					uid++
+					ts := win.Add(off).Add(time.Duration(si) * time.Millisecond)
+					tags := make([]*modelv1.TagValue, len(c01Tags))
+					tags[0] = tStr(fmt.Sprintf("c%d-enc%d", c, si))
+					tags[1] = tInt(uid)
+					for j := 2; j < len(c01Tags); j++ {
+						tags[j] = genTag(r, c01Tags[j].Type)
+					}
+					w := wrote{ts: ts.UnixNano()}
+					for _, tv := range tags {
+						w.tags = append(w.tags, canonTag(tv))
+					}
+					if kind == "measure" {
+						fields := []*modelv1.FieldValue{fInt(genInt(r)), fFloat(genFloat(r)), fStr(genStr(r)), fBin([]byte(genStr(r)))}
+						for _, f := range fields {
+							w.fields = append(w.fields, canonField(f))
+						}
+						pts = append(pts, &measurev1.DataPointValue{Timestamp: timestamppb.New(ts), TagFamilies: []*modelv1.TagFamilyForWrite{{Tags: tags}}, Fields: fields})
+					} else {
+						els = append(els, &streamv1.ElementValue{ElementId: fmt.Sprint("e", uid), Timestamp: timestamppb.New(ts), TagFamilies: []*modelv1.TagFamilyForWrite{{Tags: tags}}})
+					}
+					model[uid] = w
+					uids = append(uids, uid)
+				}
+			}
+			s.Count("c01."+kind+".enclosing_series_batches", 1)
 		}
 		var acked []bool
 		var werr error
@@ -431,14 +472,22 @@ func TestVerifC01(t *testing.T) {
 				byTS[w.ts] = append(byTS[w.ts], u)
 			}
 			sort.Slice(tsList, func(i, j int) bool { return tsList[i] < tsList[j] })
-			tails := min(len(tsList), min(nSeries+1, 8))
-			for k := 0; k < 4+2*tails; k++ {
+			// the directed series of the batch lie an hour and more after the seeded rows: the head/tail windows are
+			// taken over the seeded rows (index < mainEnd), the random ones over everything
+			mainEnd := sort.Search(len(tsList), func(i int) bool { return tsList[i] >= win.Add(time.Hour).UnixNano() })
+			if mainEnd == 0 {
+				mainEnd = len(tsList)
+			}
+			tails := min(mainEnd, 8)
+			for k := 0; k < 6+2*tails; k++ {
 				a, b := r.Intn(len(tsList)), r.Intn(len(tsList))
 				switch {
-				case k < tails: // every window that starts at one of the last few points and runs to the end
-					a, b = len(tsList)-1-k, len(tsList)-1
+				case k < tails: // every window that starts at one of the last few seeded points and runs to their end
+					a, b = mainEnd-1-k, mainEnd-1
 				case k < 2*tails: // and the mirror image at the head
 					a, b = 0, k-tails
+				case k == 2*tails: // from inside the seeded rows to the very end (across the directed series)
+					a, b = r.Intn(mainEnd), len(tsList)-1
 				}
 				if a > b {
 					a, b = b, a
